@@ -20,3 +20,16 @@ claim("C04", "E1", "exploration",
       "Every prefix, single-octet corruption and length/tail mismatch of a corpus of valid encodings, every short string over {0,1,ff} and every lying packet length is given to all nine decoders and Request.Fields; "
       "a panic, a result that depends on bytes beyond len(input), an accepted value that fails validation, a field not made of input bytes or an allocation above 16*len+16KiB is a violation.",
       "inputs outside the mutation alphabet are not explored; allocation measured via runtime.MemStats in an otherwise idle worker", "3/C04")
+claim("C05", "E3", "model_checking",
+      "exhaustive enumeration of stream segmentations (cut sets, EOF/timeout positions) on the real stream reader over a scripted connection",
+      "Every cut set up to the stated size, both extreme segmentations and every EOF/timeout position of each stream is delivered chunk by chunk to the real server loop and to the real Client.Send; "
+      "what the receiver hands on is compared with what was sent. Oversize announcements are checked for immediate refusal with no further read.",
+      "streams longer than the listed ones and more simultaneous cuts than the bound are not explored; the scripted connection returns exactly one chunk per Read", "3/C05")
+claim("C06", "E3", "model_checking",
+      "exhaustive enumeration of request headers x reply kinds and of continuation chains on the real Serve loop, raw reply octets compared with a header model and reference pad",
+      "For every flag octet x every odd sequence number, for every type/minor/session combination and for chains through registered continuations, the raw bytes the server writes are compared with the model's reply header and the reference obfuscation; request 255 must produce no bytes; handler-built packets with a lying length must go out with the true length.",
+      "scripted handlers; the reference server's handlers are exercised under C07", "3/C06")
+claim("C08", "E3", "model_checking",
+      "explicit enumeration of all packet histories up to a depth on the real Serve loop in lock-step with a connection model",
+      "All histories of (session, sequence number, handler action) up to depth 4 (quick) / 5 (thorough) are executed on fresh scripted connections; the invoked handler instance, the output and the open/closed state are compared with the reference connection model after every event.",
+      "two session ids, eight sequence values, histories deeper than the bound are not explored", "3/C08")
